@@ -32,11 +32,11 @@ RULE = (
 FLOORS = {"quick": {"invariant.global": 3000, "shadow": 2500, "traversal": 6000, "copy.isolation": 300, "hook:Composite.add": 2000, "hook:Composite.remove": 500, "hook:ArmiObject.__setstate__": 500,
                     "ancestor.flags": 1000, "ancestor.flags-exactness-decides-above-self": 15, "flags.query-selects-proper-subset": 150, "type.query-by-construction-name": 300,
                     "copy.locator-relinked": 1500, "copy.multi-location-relinked": 600, "copy.reactor-links": 8, "detached.multi-location": 2500,
-                    "core.order": 120, "discharge.move-to-sfp": 10, "sort.order-by-location": 300, "query-scratch": 400, "query-scratch/getChildren()": 60, "setChildren.fed-with-edited-getChildren-result": 80},
+                    "core.order": 120, "discharge.move-to-sfp": 10, "sort.order-by-location": 300, "copy.edited-on-a-vacated-cell": 4, "query-scratch": 400, "query-scratch/getChildren()": 60, "setChildren.fed-with-edited-getChildren-result": 80},
           "thorough": {"invariant.global": 60000, "shadow": 50000, "traversal": 120000, "copy.isolation": 6000, "hook:Composite.add": 40000, "hook:Composite.remove": 10000, "hook:ArmiObject.__setstate__": 10000,
                        "ancestor.flags": 20000, "ancestor.flags-exactness-decides-above-self": 300, "flags.query-selects-proper-subset": 3000, "type.query-by-construction-name": 5000,
                        "copy.locator-relinked": 12000, "copy.multi-location-relinked": 5000, "copy.reactor-links": 50, "detached.multi-location": 50000,
-                       "core.order": 800, "discharge.move-to-sfp": 70, "sort.order-by-location": 6000, "query-scratch": 8000, "query-scratch/getChildren()": 1200, "setChildren.fed-with-edited-getChildren-result": 1600}}
+                       "core.order": 800, "discharge.move-to-sfp": 70, "sort.order-by-location": 6000, "copy.edited-on-a-vacated-cell": 80, "query-scratch": 8000, "query-scratch/getChildren()": 1200, "setChildren.fed-with-edited-getChildren-result": 1600}}
 REC = [None]
 
 
@@ -1008,6 +1008,33 @@ def assembly_op(rec, rng, a, op, hist, detached, roots, w, gen, pitch):
         a.reestablishBlockOrder()
         hist.append("reestablishBlockOrder")
         exp = kids
+    elif op in ("deepcopy", "pickle") and len(roots) < 4 and len(kids) > 1 and rng.random() < .4:
+        # a block is taken out, the assembly is copied as it stands (its axial grid still knows the vacated cell), and the copy is
+        # edited on its own: a block put on that cell of the copy sits on the copy's grid
+        b = rng.choice(kids)
+        k = [i_ for i_, x in enumerate(kids) if x is b][0]
+        a.remove(b)
+        cp = copy.deepcopy(a) if op == "deepcopy" else pickle.loads(pickle.dumps(a))
+        nb = new_block()
+        cp.insert(k, nb)
+        rec.hit("copy.edited-on-a-vacated-cell")
+        loc = nb.spatialLocator
+        if getattr(loc, "grid", None) is not cp.spatialGrid:
+            rec.violation("copy/block-put-on-a-vacated-cell-of-the-copy-is-not-on-its-grid", "after remove -> %s -> insert(%d) on the copy the new block's location belongs to %r, the copy's grid is %r" % (
+                op, k, getattr(loc, "grid", None), cp.spatialGrid), w)
+        stale = [c_ for c_ in cp.spatialGrid._locations.values() if c_.grid is not cp.spatialGrid]
+        if stale:
+            rec.violation("copy/grid-cells-not-relinked", "%d cells known to the copy's axial grid are not attached to it (%s)" % (len(stale), op), w)
+        for x_ in (a, cp):
+            x_.reestablishBlockOrder()
+            x_.calculateZCoords()
+        detached.append(b)
+        hist.append("assembly.remove -> %s -> insert on the copy" % op)
+        if a.parent is None:
+            roots.append(cp)
+        else:
+            detached.append(cp)
+        exp = [x for x in kids if x is not b]
     elif op in ("deepcopy", "pickle") and len(roots) < 4:
         cp = copy.deepcopy(a) if op == "deepcopy" else pickle.loads(pickle.dumps(a))
         hist.append("assembly." + op)
